@@ -159,7 +159,10 @@ def run_one(prop, tier, seed):
         # in isolation depends on calls made earlier in the same process (module-level state of the library).  It is reported
         # as a violation all the same - the artefact says so.
         print(f"[{prop}] note: not reproducible in isolation (depends on earlier calls in the same process): {flaky}")
-    if goal_fail:
+    if goal_fail and rc == 1:
+        # violations were found: an outcome class that never occurred is most likely their consequence, not a vacuous exploration
+        print(f"[{prop}] note: outcome classes that never occurred in this run: {goal_fail}")
+    elif goal_fail:
         sys.stderr.write(f"HARNESS-ERROR: coverage goals missed (exploration vacuous?): {goal_fail}\n")
         return 2
     if not ok:
